@@ -120,7 +120,6 @@ theorem validate_R (b : Bool) (ch ch' : Chain) (h : validate b ch = .ok ch') : â
 theorem C03_required_included (ti : TyInfo) (funcs : List CP) (ch : Chain)
     (h : computeInclusion ti funcs = .ok ch) : âˆ€ j, (ch.get j).c.required = true â†’ (ch.get j).inc = true := by
   unfold computeInclusion at h
-  simp only at h
   split at h
   Â· cases h
   Â· split at h
